@@ -792,6 +792,12 @@ func streams(c Cfg, n int, seed int64, out, rankOut string) {
 						continue
 					}
 					target := c.Index.New(u)
+					if hdr == 1 && tgt == "fresh" && hid%2 == 0 {
+						// with a header the stream describes itself: the receiver may have been constructed with another
+						// dimension and other parameters (a generic loader), the header's have to win
+						target = index.NewHnsw(uint(u.Dim+3), u.Space)
+						ev.Tgt = "fresh-otherdim"
+					}
 					if tgt == "used" {
 						for k := 0; k < 1+rng.Intn(6); k++ {
 							target.Insert(hx.Uid(100+rng.Intn(20)), append(amath.Vector{}, vecs[rng.Intn(c.Np)]...), shapeMeta("small", rng), lvl(rng, c.MaxLv))
